@@ -32,7 +32,7 @@ def run_m1(tier, seed, chk=None):
     rc, out, binp = vflib.build_harness("hm1")
     if rc != 0:
         return {"build_error": out[-3000:]}
-    rc2, out2 = vflib.build_layer("m1")
+    rc2, out2 = vflib.build_layer("m1", targets="models")
     if rc2 != 0:
         return {"coq_error": out2[-3000:]}
     key = tree_hash(["/repo/crates/vespertide-core", "/repo/crates/vespertide-planner", "/repo/crates/vespertide-naming",
